@@ -125,6 +125,34 @@ Qed.
 Lemma NoDup_app_r : forall A (a b : list A), NoDup (a ++ b) -> NoDup b.
 Proof. induction a as [|x a IH]; simpl; intros b H; [exact H|]. inversion H; subst. apply IH. assumption. Qed.
 
+Lemma NoDup_map_eq : forall A B (f : A -> B) (l : list A) a b, NoDup (map f l) -> In a l -> In b l -> f a = f b -> a = b.
+Proof.
+  intros A B f l a b H. induction l as [|y t IH]; simpl in *; intros Ha Hb E; [destruct Ha|].
+  inversion H as [|? ? Hy Ht]; subst.
+  destruct Ha as [Ha|Ha]; destruct Hb as [Hb|Hb].
+  - congruence.
+  - exfalso. apply Hy. rewrite Ha, E. apply in_map. exact Hb.
+  - exfalso. apply Hy. rewrite Hb, <- E. apply in_map. exact Ha.
+  - apply IH; assumption.
+Qed.
+
+Lemma firstn_In_sub : forall A k (l : list A) x, In x (firstn k l) -> In x l.
+Proof. intros A k l x H. rewrite <- (firstn_skipn k l). apply in_or_app. left. exact H. Qed.
+
+Lemma NoDup_firstn_sub : forall A k (l : list A), NoDup l -> NoDup (firstn k l).
+Proof.
+  intros A k l H. rewrite <- (firstn_skipn k l) in H. revert H. generalize (firstn k l) (skipn k l). intros a b.
+  induction a as [|x a IH]; simpl; intro H; [constructor|]. inversion H; subst. constructor; [|apply IH; assumption].
+  intro Hx. apply H2. apply in_or_app. left. exact Hx.
+Qed.
+
+Lemma NoDup_filter_map : forall A B (f : A -> B) (g : A -> bool) l, NoDup (map f l) -> NoDup (map f (filter g l)).
+Proof.
+  intros A B f g l. induction l as [|x t IH]; simpl; intro H; [constructor|]. inversion H; subst.
+  destruct (g x); simpl; [|apply IH; assumption]. constructor; [|apply IH; assumption].
+  intro Hx. apply H2. apply in_map_iff in Hx. destruct Hx as [y [E Hy]]. apply filter_In in Hy. rewrite <- E. apply in_map. tauto.
+Qed.
+
 (* ---- mem / remove / add on name lists ---- *)
 Lemma mem_name_In : forall n l, mem_name n l = true <-> In n l.
 Proof.
